@@ -6618,6 +6618,26 @@ let m_noeol =
 let m_escaped bytes line =
   list_eqb bytes (trim_newlines line)
 
+(** val nOEOL_SUFFIX : n list **)
+
+let nOEOL_SUFFIX =
+  (Npos (XO (XO (XO (XO (XO XH)))))) :: ((Npos (XO (XO (XO (XI (XO
+    XH)))))) :: ((Npos (XO (XI (XI (XI (XO (XI XH))))))) :: ((Npos (XI (XI
+    (XI (XI (XO (XI XH))))))) :: ((Npos (XI (XO (XI (XI (XO
+    XH)))))) :: ((Npos (XI (XO (XI (XO (XO (XI XH))))))) :: ((Npos (XI (XI
+    (XI (XI (XO (XI XH))))))) :: ((Npos (XO (XO (XI (XI (XO (XI
+    XH))))))) :: ((Npos (XI (XO (XO (XI (XO XH)))))) :: []))))))))
+
+(** val escaped_body : n list -> n list **)
+
+let escaped_body e =
+  if (&&) (leb (S (S (S (S (S (S (S (S (S O))))))))) (length e))
+       (list_eqb
+         (skipn (sub (length e) (S (S (S (S (S (S (S (S (S O)))))))))) e)
+         nOEOL_SUFFIX)
+  then firstn (sub (length e) (S (S (S (S (S (S (S (S (S O)))))))))) e
+  else e
+
 (** val sTAR : n **)
 
 let sTAR =
